@@ -10,21 +10,161 @@ package main
 // case : it=<k><+|-><0|1>,...  srv=<listener kind per s item> ups=<upstream kind per u item> how=<n>
 //        k: m metrics, u upstream, d domain set, r rule, c cache, s listener (in run's order);
 //        +/- initialises or fails; 0/1 owns a socket once initialised; how selects the failure mode.
+//        bin=1: the configuration is written to a file and run by the real command (`router -c file`) in a
+//        child process: exit status 1 = err, a panic trace / other status = panic; a router that came up gets
+//        SIGTERM and must exit with status 0.
 // out  : res=<ok|err|panic|hang|closehang> busy=<ids of items whose address is still bound|-> leak=<n>
 
 import (
+	"bytes"
+	"errors"
 	"fmt"
 	"math/rand"
 	"net"
 	"os"
+	"os/exec"
 	"strconv"
 	"strings"
+	"syscall"
+	"time"
 
+	"github.com/IrineSistiana/mosproxy/app"
 	"github.com/IrineSistiana/mosproxy/app/router"
+	"gopkg.in/yaml.v3"
 )
 
 func init() {
+	// With C18_REAL_MAIN=<config file> this binary behaves like the real mosproxy binary
+	// (`mosproxy router -c <file>`): same root command, same Run function, same exit paths.
+	if f := os.Getenv("C18_REAL_MAIN"); f != "" {
+		cmd := app.RootCmd()
+		cmd.SetArgs([]string{"router", "-c", f, "--log-lvl", "error"})
+		if err := cmd.Execute(); err != nil {
+			os.Exit(3)
+		}
+		os.Exit(0)
+	}
 	register("startup", &component{gen: c18StartupGen, run: c18StartupRun, setup: c18Setup})
+}
+
+// c18RunBinary runs the configuration through the real command in a child process: a start-up error must
+// end the process with status 1 (logger.Fatal), not with a panic (status 2 and a goroutine trace); a router
+// that came up must exit with status 0 after SIGTERM (signal -> r.close -> os.Exit(0)).
+func c18RunBinary(b *c18built) (res, detail string) {
+	// a SIGTERM that arrives between the return of `run` and signal.Notify kills the child by the default
+	// action: that is a race of this observation, not of the router — retried with a longer grace
+	for _, grace := range []time.Duration{100 * time.Millisecond, 600 * time.Millisecond, 2 * time.Second} {
+		res, detail = c18RunBinaryOnce(b, grace)
+		if res != "sigdeath" {
+			break
+		}
+	}
+	return res, detail
+}
+
+func c18RunBinaryOnce(b *c18built, grace time.Duration) (res, detail string) {
+	raw, err := yaml.Marshal(b.cfg)
+	if err != nil {
+		return "bad-case", err.Error()
+	}
+	f, err := os.CreateTemp("", "c18cfg*.yaml")
+	if err != nil {
+		return "bad-case", err.Error()
+	}
+	f.Write(raw)
+	f.Close()
+	defer os.Remove(f.Name())
+	cmd := exec.Command(os.Args[0])
+	cmd.Env = append(os.Environ(), "C18_REAL_MAIN="+f.Name())
+	var stderr bytes.Buffer
+	cmd.Stderr = &stderr
+	if err := cmd.Start(); err != nil {
+		return "bad-case", err.Error()
+	}
+	exited := make(chan error, 1)
+	go func() { exited <- cmd.Wait() }()
+	classify := func(err error) string {
+		if bytes.Contains(stderr.Bytes(), []byte("panic:")) || bytes.Contains(stderr.Bytes(), []byte("fatal error:")) {
+			return "panic"
+		}
+		if err == nil {
+			return "ok"
+		}
+		var ee *exec.ExitError
+		if errors.As(err, &ee) {
+			if ee.ExitCode() == 1 {
+				return "err"
+			}
+			if ws, ok := ee.Sys().(syscall.WaitStatus); ok && ws.Signaled() && ws.Signal() == syscall.SIGTERM {
+				return "sigdeath"
+			}
+		}
+		return "panic"
+	}
+	up := func() bool {
+		for id, p := range b.ports {
+			addr := "127.0.0.1:" + strconv.Itoa(p)
+			if b.udp[id] {
+				c, err := net.ListenPacket("udp", addr)
+				if err == nil {
+					c.Close()
+					return false
+				}
+			} else {
+				l, err := net.Listen("tcp", addr)
+				if err == nil {
+					l.Close()
+					return false
+				}
+			}
+		}
+		return true
+	}
+	deadline := time.Now().Add(c18CallMax)
+	for {
+		select {
+		case err := <-exited:
+			r := classify(err)
+			if r == "ok" {
+				r = "exit0" // nobody asked it to stop
+			}
+			return r, strings.TrimSpace(strings.ReplaceAll(lastLine(stderr.String()), "\t", " "))
+		default:
+		}
+		if len(b.blockers) == 0 && up() {
+			break
+		}
+		if time.Now().After(deadline) {
+			cmd.Process.Kill()
+			<-exited
+			return "hang", ""
+		}
+		time.Sleep(10 * time.Millisecond)
+	}
+	// `run` has returned in the child; give it a moment to install its signal handler
+	time.Sleep(grace)
+	cmd.Process.Signal(syscall.SIGTERM)
+	select {
+	case err := <-exited:
+		r := classify(err)
+		d := ""
+		if r != "ok" {
+			d = fmt.Sprintf("after SIGTERM: %v; %s", err, lastLine(stderr.String()))
+		}
+		return r, d
+	case <-time.After(c18CallMax):
+		cmd.Process.Kill()
+		<-exited
+		return "closehang", ""
+	}
+}
+
+func lastLine(s string) string {
+	s = strings.TrimSpace(s)
+	if i := strings.LastIndexByte(s, '\n'); i >= 0 {
+		return s[i+1:]
+	}
+	return s
 }
 
 var c18SrvKinds = []string{"udp", "udp2", "tcp", "tls", "http", "fasthttp", "https", "quic", "gnet"}
@@ -246,15 +386,33 @@ func c18StartupRun(c string) string {
 			return "panic"
 		}
 	}
+	// Another process of this machine may grab a port between its selection and its use; that is noise of
+	// the environment (the case itself blocks ports only through b.blockers): such a run is repeated.
+	return c18Retry(func() string {
+		var out string
+		for try := 0; try < 4; try++ {
+			var noise bool
+			out, noise = c18StartupOnce(m, items)
+			if !noise {
+				break
+			}
+		}
+		return out
+	})
+}
+
+func c18StartupOnce(m map[string]string, items []c18item) (string, bool) {
 	base := c18Baseline()
 	b := c18Build(items, c18List(m["srv"]), c18List(m["ups"]), atoi(m["how"]), nil)
 	defer b.cleanup()
+	blocked := len(b.blockers) > 0
 
 	var r *router.VerifRouter
 	var err error
-	res := c18Call(c18CallMax, func() { r, err = router.VerifRun(b.cfg) })
-	detail := ""
-	if res == "ok" {
+	var res, detail string
+	if m["bin"] == "1" {
+		res, detail = c18RunBinary(b)
+	} else if res = c18Call(c18CallMax, func() { r, err = router.VerifRun(b.cfg) }); res == "ok" {
 		if err != nil {
 			res = "err"
 			detail = err.Error()
@@ -287,7 +445,8 @@ func c18StartupRun(c string) string {
 			return r
 		}, detail)
 	}
-	return out
+	noise := res == "err" && !blocked && strings.Contains(detail, "address already in use")
+	return out, noise
 }
 
 func c18StartupGen(r *rand.Rand, thorough bool, emit func(c, cat string)) {
@@ -346,6 +505,10 @@ func c18StartupGen(r *rand.Rand, thorough bool, emit func(c, cat string)) {
 			c += " ups=" + strings.Join(ups, ",")
 		}
 		c += " how=" + strconv.Itoa(r.Intn(60))
+		if i%6 == 1 {
+			c += " bin=1"
+			cat += "/real-binary"
+		}
 		emit(c, cat)
 	}
 }
